@@ -14,7 +14,7 @@ World *g_world = nullptr;
 const char *rk_names[] = { "data", "data_ttl5", "data_ttl0", "nodata", "nodata_nosoa", "nxdomain", "nxdomain_nosoa", "servfail",
                            "refused", "notimp", "formerr_noopt", "formerr_opt", "tc", "malformed", "empty", "ck_none", "ck_valid",
                            "ck_valid2", "ck_wrongclient", "badcookie", "badcookie_bare", "cname_data", "data_mixed", "data_multi" };
-const char *fg_names[] = { "wrongid", "wrongname", "wrongtype", "wrongclass", "caseflip", "wrongsrc", "othersock", "nocookie", "badclientcookie" };
+const char *fg_names[] = { "wrongid", "wrongname", "wrongtype", "wrongclass", "caseflip", "wrongsrc", "othersock", "nocookie", "badclientcookie", "wrongsrc-framed" };
 const char *fs_names[] = { "socket", "setsockopt", "bind", "connect", "getsockname", "send_refused", "send_wouldblock", "send_short", "recv_reset" };
 
 static std::string fmt(const char *f, ...)
@@ -1601,7 +1601,8 @@ void World::inject(int txid, int kind, bool forged, int mutation)
             if (done) break;
           }
         break;
-      case FG_WRONGSRC: pk.src_server = -1; break;
+      case FG_WRONGSRC:
+      case FG_WRONGSRC_FRAMED: pk.src_server = -1; break;
       case FG_OTHERSOCK: {
         VSock *o = nullptr;
         for (auto &x : socks)
@@ -1618,6 +1619,15 @@ void World::inject(int txid, int kind, bool forged, int mutation)
   if (forged && mutation == FG_NOCOOKIE) rk = RK_CK_NONE;
   if (forged && mutation == FG_BADCLIENTCOOKIE) rk = RK_CK_WRONGCLIENT;
   pk.data = build_reply(use, rk, pk);
+  if (forged && mutation == FG_WRONGSRC_FRAMED) {
+    // a datagram from a foreign address whose payload is a TCP-style frame: two length octets, then a response that
+    // would match the query
+    Bytes framed;
+    framed.push_back((unsigned char)(pk.data.size() >> 8));
+    framed.push_back((unsigned char)(pk.data.size() & 0xff));
+    framed.insert(framed.end(), pk.data.begin(), pk.data.end());
+    pk.data = framed;
+  }
   if (!forged) tx.answered++;
   else tx.forged++;
   pk.on_fd    = s->fd;
